@@ -17,8 +17,16 @@ for p in props:
     else:
         na.append(dict(property_id=i, reason="not claimed yet: the Coq model and correspondence engine for this property are planned (DESIGN.md §5) but not built at this commit"))
 engines = [dict(name="coq", path="/verif/coq", serves_properties=sorted(CLAIMS), kind_free_text="Coq 8.16.1 development: models, proofs, property theorems, verdict functions (vm_compute)")]
+# which engines a property's check runs: its own and those of its further plug-ins (props/Cxx.py: `also`)
+sys.path.insert(0, os.path.join(V, 'lib'))
+sys.path.insert(0, V)
+import importlib
+def engines_of(pid):
+    P = importlib.import_module('props.' + pid)
+    return {P.engine} | {importlib.import_module('props.' + q).engine for q in getattr(P, 'also', [])}
+USES = {k: engines_of(k) for k in CLAIMS}
 for n, (path, txt) in ENGINES.items():
-    engines.append(dict(name=n, path=path, serves_properties=sorted(k for k, c in CLAIMS.items() if n in c['engine'].split('+')), kind_free_text=txt))
+    engines.append(dict(name=n, path=path, serves_properties=sorted(k for k in CLAIMS if n in USES[k]), kind_free_text=txt))
 m = dict(version=1, setup_cmd="./setup.sh",
   hooks=dict(guard="cucumber_rs_cucumber_verif", enable='RUSTFLAGS="--cfg cucumber_rs_cucumber_verif"',
      baseline_off_cmd="cd /repo && cargo test --workspace --no-fail-fast --offline", source_commits=HOOK_COMMITS, add_only=ADD_ONLY),
